@@ -2,9 +2,9 @@
     the as-is bodies run with two different admissible estimators, and the transcribed f32 estimators of the
     library (XLog2Model on Flocq's binary32) with the bodies run on top of them *)
 Require Import FastZ.
-From Dashu Require Import Base.Prelude Cross.XVal Cross.XOrdModel Cross.XDispatch Cross.XLog2Model Cross.XEstF32Model Cross.XPrimHashModel.
+From Dashu Require Import Base.Prelude Cross.XVal Cross.XOrdModel Cross.XDispatch Cross.XLog2Model Cross.XEstF32Model Cross.XPrimHashModel Cross.XImplModel Cross.XImplPairs.
 Extraction "model.ml"
   untag value_of spec_cmp spec_abs_cmp spec_hash mk_rbig mk_relaxed repr_new decode
   ord_run ord_run2 abs_run abs_run2 fsame_run hash_asis
-  f_of_bits f_to_bits ibig_log2_bounds f_log2_bounds f_log2_bounds_pinned q_log2_bounds digits_ub32
-  ord_raw abs_raw fsame_raw prim_int_hash prim_float_hash.
+  f_of_bits f_to_bits next_up next_down ibig_log2_bounds f_log2_bounds f_log2_bounds_pinned q_log2_bounds digits_ub32
+  ord_raw abs_raw fsame_raw prim_int_hash prim_float_hash has_numord has_absord has_numhash.
